@@ -10,13 +10,18 @@ operation (name clash, second parent, cyclic adoption) leaves everything as it w
 
 The model (`Model/Tree.lean`) transcribes `add_child` ↔ `_set_parent`, `remove_child`,
 `replace_child`, `__setattr__` and the `Workflow.parent` setter with the state each leaves behind
-when it raises.  `Cfg` selects the pinned behaviour or the repairs of `fixes/C13-*.patch`.
+when it raises.  `Cfg` has one flag per repaired statement: all `false` is the pinned code,
+`Cfg.sixFixes` is the tree after the `fix:` commits d3d68f8 c218405 8702aee 53801cf (F1–F6),
+`Cfg.repaired` has in addition `fixes/C13-replace-child-precheck.patch` (F7).
 
 * For the **repaired** variant the full statements are theorems (`C13_step`, `C13_history`,
-  `C13_rejected_unchanged`, …), for histories of any length.
+  `C13_rejected_unchanged`, …), for histories of any length and every entry point, `replace_child`
+  included.
 * For the **pinned** variant the two full statements are *false*; each defect is a
-  machine-checked counterexample (`…_witness`), and what does hold in every variant is proved
-  without the `Repaired` hypothesis (`C13_cycle_caught`, `C13_remove_any_variant`).
+  machine-checked counterexample (`…_witness`); with F1–F6 the second one is still false for
+  `replace_child` (`C13_replace_ancestor_witness`, `C13_replace_workflow_witness`).  What holds
+  in every variant is proved without the `Repaired` hypothesis (`C13_cycle_caught`,
+  `C13_remove_any_variant`, `C13_replace_refused_unchanged`).
 
 `RecursionError` (Python's recursion limit hit inside `lexical_path`, modelled by `cfg.fuel`; for the repaired identity walk: its loop bound)
 is outside the statements: a history is `Admissible` when no step ends that way.
@@ -33,10 +38,10 @@ abbrev Inv := WFTree
 def StepStatement (cfg : Cfg) : Prop :=
   ∀ (t : Tree) (op : Op), WFTree t → OpPre t op → (step cfg t op).2 = .ok → WFTree (step cfg t op).1
 
-/-- FULL STATEMENT 2: a rejected operation leaves everything as it was (`replace_child`, whose
-all-or-nothing behaviour is property C14, is covered by `C13_replace_*` below) -/
+/-- FULL STATEMENT 2: a rejected operation — any entry point, `replace_child` included (its
+ownership side; connections and values are property C14) — leaves everything as it was -/
 def RejectedStatement (cfg : Cfg) : Prop :=
-  ∀ (t : Tree) (op : Op), WFTree t → OpPre t op → op.isReplace = false →
+  ∀ (t : Tree) (op : Op), WFTree t → OpPre t op →
     (step cfg t op).2 ≠ .ok → (step cfg t op).2 ≠ .recursionError → (step cfg t op).1 = t
 
 theorem C13_init (kind : Nat → Kind) (strict : Nat → Bool) (reserved : Nat → List Str) :
@@ -47,7 +52,7 @@ theorem C13_step (fuel : Nat) : StepStatement (Cfg.repaired fuel) := by
   intro t op h hpre hok
   exact step_wf (repaired_repaired fuel) h op hpre (by rw [hok]; decide)
 
-/-- repaired variant: … and so does a rejected one (also a half-done `replace_child`) -/
+/-- repaired variant: … and so does a rejected one -/
 theorem C13_state_always_wf (fuel : Nat) (t : Tree) (op : Op) (h : WFTree t) (hpre : OpPre t op)
     (hrec : (step (Cfg.repaired fuel) t op).2 ≠ .recursionError) :
     WFTree (step (Cfg.repaired fuel) t op).1 := step_wf (repaired_repaired fuel) h op hpre hrec
@@ -61,13 +66,14 @@ theorem C13_history (fuel : Nat) (kind : Nat → Kind) (strict : Nat → Bool) (
 
 /-- repaired variant: a rejected operation leaves everything as it was -/
 theorem C13_rejected_unchanged (fuel : Nat) : RejectedStatement (Cfg.repaired fuel) := by
-  intro t op h hpre hnr hne hrec
-  exact (step_good (repaired_repaired fuel) h op hpre hnr).2 hne hrec
+  intro t op h hpre hne hrec
+  exact (step_good (repaired_repaired fuel) h op hpre).2 hne hrec
 
-/-- `replace_child` refused up front (not the owner, replacement already owned): unchanged, in
-every variant -/
+/-- `replace_child` refused up front (not the owner, replacement already owned, ownership
+pre-check where present): unchanged, in every variant -/
 theorem C13_replace_refused_unchanged (cfg : Cfg) (t : Tree) (p old new : Nat)
-    (hpre : (t.kind p).isComposite = false ∨ t.parent old ≠ some p ∨ t.parent new ≠ none) :
+    (hpre : (t.kind p).isComposite = false ∨ t.parent old ≠ some p ∨ t.parent new ≠ none ∨
+      replacePre cfg t p new ≠ .ok) :
     (step cfg t (.replace p old new)).1 = t ∧ (step cfg t (.replace p old new)).2 ≠ .ok :=
   replaceChild_refused cfg t p old new hpre
 
@@ -107,24 +113,29 @@ def exKind : Nat → Kind
 def exEmpty : Tree := empty exKind (fun n => n != 1) (fun _ => [['r', 'u', 'n'], ['i', 'n', 'p', 'u', 't', 's']])
 abbrev rep : Cfg := Cfg.repaired 64
 abbrev pin : Cfg := Cfg.pinned 64
+/-- /repo after the four `fix:` commits, without the replace pre-check -/
+abbrev cur : Cfg := Cfg.sixFixes 64
 
 /-- a healthy history through every entry point: constructor with `parent=`, three nesting
 levels, a name clash resolved by suffixing, refused attempts (attribute clash, second parent,
 cyclic adoption, workflow as child, self adoption), re-parenting, re-labelling, removal,
-replacement, starting nodes -/
+replacement by node and by label, refused replacements (by an ancestor, by a workflow, by an
+owned node, of a missing label), starting nodes -/
 def exOps : List Op :=
   [.new 0 ['w'] none, .new 4 ['m'] (some 0), .new 5 ['x'] (some 4), .new 2 ['a'] (some 5),
    .new 1 ['v'] none, .new 3 ['a'] none, .add 1 3 none none, .new 6 ['a'] none, .add 1 6 none none,
    .add 1 6 (some ['r', 'u', 'n']) none, .add 0 6 none none, .add 5 0 none none, .add 0 1 none none,
    .add 4 4 none none, .setparent 6 (some 5), .add 5 6 (some ['b']) none, .setStarting 5 [6, 2],
-   .remove 5 2, .new 7 ['q'] none, .replace 5 6 7, .setparent 5 none, .setattr 0 ['y'] 5]
+   .remove 5 2, .new 7 ['q'] none, .replace 5 6 7, .setparent 5 none, .setattr 0 ['y'] 5,
+   .new 8 ['z'] none, .replaceLabel 5 ['b'] 8, .replace 5 8 0, .replace 5 8 1, .replace 5 8 5,
+   .replaceLabel 5 ['n', 'o'] 7]
 def exT : Tree := run rep exEmpty exOps
 
 example : Admissible rep exEmpty exOps := by decide
 example : WFTree exT := C13_history 64 _ _ _ exOps (by decide)
 example : exT.children 1 = [(['a'], 3)] ∧ exT.children 0 = [(['m'], 4), (['y'], 5)] ∧
-    exT.children 5 = [(['b'], 7)] ∧ exT.starting 5 = [7] ∧ exT.label 6 = ['q'] ∧ exT.parent 6 = none ∧
-    exT.children 4 = [] := by decide
+    exT.children 5 = [(['b'], 8)] ∧ exT.starting 5 = [8] ∧ exT.label 6 = ['q'] ∧ exT.parent 6 = none ∧
+    exT.label 7 = ['z'] ∧ exT.parent 7 = none ∧ exT.children 4 = [] := by decide +kernel
 /-- the rejected attempts of that history, with their reasons -/
 example : (exOps.take 16).length = 16 ∧
     (step rep (run rep exEmpty (exOps.take 9)) (.add 1 6 (some ['r', 'u', 'n']) none)).2 = .attributeError ∧
@@ -132,6 +143,13 @@ example : (exOps.take 16).length = 16 ∧
     (step rep (run rep exEmpty (exOps.take 11)) (.add 5 0 none none)).2 = .cyclicPathError ∧
     (step rep (run rep exEmpty (exOps.take 12)) (.add 0 1 none none)).2 = .parentMostError ∧
     (step rep (run rep exEmpty (exOps.take 13)) (.add 4 4 none none)).2 = .cyclicPathError := by decide
+/-- the refused replacements of that history: nothing changed (`C13_rejected_unchanged`) -/
+example :
+    (step rep (run rep exEmpty (exOps.take 24)) (.replace 5 8 0)).2 = .cyclicPathError ∧
+    (step rep (run rep exEmpty (exOps.take 25)) (.replace 5 8 1)).2 = .typeError ∧
+    (step rep (run rep exEmpty (exOps.take 26)) (.replace 5 8 5)).2 = .valueError ∧
+    (step rep (run rep exEmpty (exOps.take 27)) (.replaceLabel 5 ['n', 'o'] 7)).2 = .keyError ∧
+    (run rep exEmpty (exOps.take 24)).children 5 = [(['b'], 8)] := by decide +kernel
 /-- the second `a` offered to the non-strict workflow 1 was suffixed -/
 example : (run rep exEmpty (exOps.take 9)).children 1 = [(['a'], 3), (['a', '0'], 6)] := by decide
 /-- `C13_cycle_caught` is not vacuous: workflow 0 is a proper ancestor of macro 5 -/
@@ -174,7 +192,7 @@ theorem t3_wf : WFTree t3 := C13_history 64 _ _ _ base3 (by decide)
 /-- KF-C13-3 (P20): a parent assignment refused for a name clash leaves `child.parent` set -/
 theorem C13_rejected_reparent_witness : ¬ RejectedStatement pin := by
   intro hR
-  have he := hR t3 (.setparent 3 (some 0)) t3_wf trivial rfl (by decide) (by decide)
+  have he := hR t3 (.setparent 3 (some 0)) t3_wf trivial (by decide) (by decide)
   have h1 : (step pin t3 (.setparent 3 (some 0))).1.parent 3 = some 0 := by decide
   rw [he] at h1
   exact absurd h1 (by decide)
@@ -190,7 +208,7 @@ theorem t4_wf : WFTree t4 := C13_history 64 _ _ _ base4 (by decide)
 and leaves `child.parent` set; the repaired variant suffixes the label as `add_child` does -/
 theorem C13_nonstrict_reparent_witness : ¬ RejectedStatement pin := by
   intro hR
-  have he := hR t4 (.setparent 3 (some 1)) t4_wf trivial rfl (by decide) (by decide)
+  have he := hR t4 (.setparent 3 (some 1)) t4_wf trivial (by decide) (by decide)
   have h1 : (step pin t4 (.setparent 3 (some 1))).1.parent 3 = some 1 := by decide
   rw [he] at h1
   exact absurd h1 (by decide)
@@ -203,7 +221,7 @@ example : (step pin t4 (.setparent 3 (some 1))).2 = .keyError ∧
 has already been popped from `children` -/
 theorem C13_relabel_witness : ¬ RejectedStatement pin := by
   intro hR
-  have he := hR t1 (.add 0 2 (some ['b', '/', 'c']) none) t1_wf trivial rfl (by decide) (by decide)
+  have he := hR t1 (.add 0 2 (some ['b', '/', 'c']) none) t1_wf trivial (by decide) (by decide)
   have h1 : (step pin t1 (.add 0 2 (some ['b', '/', 'c']) none)).1.children 0 = [] := by decide
   rw [he] at h1
   exact absurd h1 (by decide)
@@ -211,7 +229,7 @@ theorem C13_relabel_witness : ¬ RejectedStatement pin := by
 /-- KF-C13-6: a workflow offered as a child is refused (`ParentMostError`) but stays listed -/
 theorem C13_workflow_child_witness : ¬ RejectedStatement pin := by
   intro hR
-  have he := hR t1 (.add 0 1 none none) t1_wf trivial rfl (by decide) (by decide)
+  have he := hR t1 (.add 0 1 none none) t1_wf trivial (by decide) (by decide)
   have h1 : (step pin t1 (.add 0 1 none none)).1.children 0 = [(['a'], 2), (['w', '2'], 1)] := by decide
   rw [he] at h1
   exact absurd h1 (by decide)
@@ -243,7 +261,7 @@ string test passes (old label), the one inside the reflexive `child.parent = sel
 the child has been re-labelled and inserted -/
 theorem C13_false_cycle_witness : ¬ RejectedStatement pin := by
   intro hR
-  have he := hR t8 (.add 4 5 (some ['w']) none) t8_wf trivial rfl (by decide) (by decide)
+  have he := hR t8 (.add 4 5 (some ['w']) none) t8_wf trivial (by decide) (by decide)
   have h1 : (step pin t8 (.add 4 5 (some ['w']) none)).1.label 5 = ['w'] := by decide
   rw [he] at h1
   exact absurd h1 (by decide)
@@ -259,15 +277,53 @@ def base9 : List Op :=
 def t9 : Tree := run rep exEmpty base9
 theorem t9_wf : WFTree t9 := C13_history 64 _ _ _ base9 (by decide)
 
-/-- KF-C13-9 (all-or-nothing replacement is C14's subject): `replace_child` removes the old
-child and swaps the labels before `add_child` can refuse the newcomer — on the pinned code through
-a false positive of the string test.  The tree stays well-formed (`C13_state_always_wf`) but is not
-the one before.  With the identity check the replacement goes through. -/
+/-- KF-C13-9 on the pinned code: `replace_child` removes the old child and swaps the labels before
+`add_child` can refuse the newcomer — here through a false positive of the string test.  With the
+identity check this replacement goes through. -/
 theorem C13_replace_false_cycle_witness :
     (step pin t9 (.replace 4 2 3)).2 = .cyclicPathError ∧ (step pin t9 (.replace 4 2 3)).1.children 4 = [] ∧
     t9.children 4 = [(['w'], 2)] ∧
     (step rep t9 (.replace 4 2 3)).2 = .ok ∧ (step rep t9 (.replace 4 2 3)).1.children 4 = [(['w'], 3)] := by
   decide
+
+def base11 : List Op := [.new 4 ['r'] none, .new 5 ['p'] (some 4), .new 2 ['a'] (some 5)]
+def t11 : Tree := run rep exEmpty base11
+theorem t11_wf : WFTree t11 := C13_history 64 _ _ _ base11 (by decide)
+
+/-- KF-C13-9 with the four `fix:` commits (F1–F6): the replacement is an ancestor of the
+composite (macro 4 owns macro 5 owns node 2; `m5.replace_child(n2, m4)`).  The old child is
+removed and the labels are swapped before `add_child` raises `CyclicPathError`; the tree stays
+well-formed but is not the one before.  With the pre-check (F7) the same error is raised before
+anything changes. -/
+theorem C13_replace_ancestor_witness : ¬ RejectedStatement cur := by
+  intro hR
+  have he := hR t11 (.replace 5 2 4) t11_wf trivial (by decide) (by decide)
+  have h1 : (step cur t11 (.replace 5 2 4)).1.children 5 = [] := by decide
+  rw [he] at h1
+  exact absurd h1 (by decide)
+
+example : (step cur t11 (.replace 5 2 4)).2 = .cyclicPathError ∧
+    (step cur t11 (.replace 5 2 4)).1.label 4 = ['a'] ∧ (step cur t11 (.replace 5 2 4)).1.label 2 = ['r'] ∧
+    (step cur t11 (.replace 5 2 4)).1.parent 2 = none ∧
+    (step rep t11 (.replace 5 2 4)).2 = .cyclicPathError ∧ t11.children 5 = [(['a'], 2)] := by decide
+
+def base12 : List Op := [.new 0 ['w'] none, .new 1 ['v'] none, .new 2 ['a'] (some 0)]
+def t12 : Tree := run rep exEmpty base12
+theorem t12_wf : WFTree t12 := C13_history 64 _ _ _ base12 (by decide)
+
+/-- KF-C13-9b with F1–F6: the replacement is a workflow (`w.replace_child(a, other_workflow)`):
+`ParentMostError` from the reflexive `child.parent = self` after the old child is gone; the
+adoption itself is undone (F4) but not the removal and the label swap -/
+theorem C13_replace_workflow_witness : ¬ RejectedStatement cur := by
+  intro hR
+  have he := hR t12 (.replace 0 2 1) t12_wf trivial (by decide) (by decide)
+  have h1 : (step cur t12 (.replace 0 2 1)).1.children 0 = [] := by decide
+  rw [he] at h1
+  exact absurd h1 (by decide)
+
+example : (step cur t12 (.replace 0 2 1)).2 = .parentMostError ∧
+    (step cur t12 (.replace 0 2 1)).1.label 1 = ['a'] ∧
+    (step rep t12 (.replace 0 2 1)).2 = .typeError ∧ t12.children 0 = [(['a'], 2)] := by decide
 
 def base10 : List Op := [.new 0 ['u'] none]
 def t10 : Tree := run rep exEmpty base10
@@ -307,3 +363,5 @@ end PwVerif.C13
 #print axioms PwVerif.C13.C13_false_cycle_witness
 #print axioms PwVerif.C13.C13_replace_false_cycle_witness
 #print axioms PwVerif.C13.C13_constructor_zombie_witness
+#print axioms PwVerif.C13.C13_replace_ancestor_witness
+#print axioms PwVerif.C13.C13_replace_workflow_witness
